@@ -91,6 +91,9 @@ Observable(st, stk) ==
          /\ (Len(st[4]) > 0 => TotalOn(top.rows, st[3] \o st[4]))
     [] st[1] = "order_rows" ->
          (st[4] > 0) => (NullFreeOn(top.rows, st[2]) /\ TotalOn(top.rows, st[2]))
+    \* arguments outside a method's documented domain (division by zero, log of a negative, ...) are not observed
+    [] st[1] = "extend" -> \A i \in 1..Len(st[2]) : \A r \in 1..Len(top.rows) : DefinedE(st[2][i][2], top.rows[r])
+    [] st[1] = "select_rows" -> \A r \in 1..Len(top.rows) : DefinedE(st[2], top.rows[r])
     [] OTHER -> TRUE
 
 \* is the row ORDER of the result defined (C18)?  only directly after a total, null-free order_rows
@@ -301,7 +304,20 @@ KeyLists(S, maxlen) ==
   {<<>>} \cup {<<c>> : c \in S}
          \cup (IF maxlen >= 2 THEN {<<p[1], p[2]>> : p \in Pairs(S)} ELSE {})
 
+\* Level 3 (C05): one single-method expression per catalogued scalar method, over the numeric columns
+MethodExprs(N) ==
+  {<<"u", op, C(c)>> : op \in {"neg", "abs", "sign", "floor", "ceil", "is_null", "is_bad", "coalesce_0"} \cup UFNames, c \in N}
+  \cup {<<"b", op, C(p[1]), C(p[2])>> : op \in ArithOps \cup CmpOps \cup PickOps, p \in Pairs(N)}
+  \cup {<<"b", op, C(c), K(2)>> : op \in {"+", "-", "*", "/", "//", "%", "**", "mod", "remainder", "maximum", "fmin"}, c \in N}
+  \cup {<<"b", lop, <<"b", ">", C(p[1]), K(0)>>, <<"b", "<", C(p[2]), K(2)>>>> : lop \in LogicOps, p \in Pairs(N)}
+  \cup {<<"u", "not", <<"b", ">", C(c), K(0)>>>> : c \in N}
+  \cup {<<"t", op, <<"b", ">", C(p[1]), K(0)>>, C(p[1]), C(p[2])>> : op \in {"if_else", "where"}, p \in Pairs(N)}
+  \* a compound condition directly under if_else / where
+  \cup {<<"t", op, <<"b", lop, <<"b", ">", C(p[1]), K(0)>>, <<"b", "<", C(p[2]), K(2)>>>>, C(p[1]), K(7)>> :
+           op \in {"if_else", "where"}, lop \in LogicOps, p \in Pairs(N)}
+  \cup {<<"in", C(c), <<1, 3>>>> : c \in N}
 ExtendSteps(cols) ==
+  IF Level = 3 THEN {<<"extend", <<<<"z", e>>>>>> : e \in MethodExprs(KindCols(cols, "n"))} ELSE
   LET N  == KindCols(cols, "n")
       Bc == KindCols(cols, "b")
       S  == KindCols(cols, "s")
